@@ -6,6 +6,7 @@ import (
 	"sort"
 	"strings"
 
+	apierrors "k8s.io/apimachinery/pkg/api/errors"
 	metav1 "k8s.io/apimachinery/pkg/apis/meta/v1"
 	"k8s.io/apimachinery/pkg/apis/meta/v1/unstructured"
 	"k8s.io/apimachinery/pkg/runtime/schema"
@@ -15,6 +16,7 @@ import (
 	corev1alpha1 "package-operator.run/apis/core/v1alpha1"
 	"package-operator.run/internal/verifharness/driver"
 	"package-operator.run/internal/verifharness/pkomodel"
+	"package-operator.run/internal/verifharness/simkube"
 )
 
 // Profile steers the random scenario family shared by C01..C10, C14, C15.
@@ -30,12 +32,15 @@ type Profile struct {
 	CPs []string
 	// FinalQuiesce: run fair rounds at the end
 	FinalQuiesce int
+	// ForgeControl lets the adversary create objects whose controller reference names a PKO revision
+	ForgeControl bool
 }
 
 var DefaultWeights = map[string]int{
 	"reconcile": 30, "round": 3, "workload": 10, "gc": 3,
 	"adv-create": 3, "adv-reown": 3, "adv-relabel": 3, "adv-edit": 3, "adv-delete": 2, "adv-recreate": 2, "adv-finalizer": 2,
 	"user-next-revision": 3, "user-pause": 2, "user-unpause": 2, "user-archive": 2, "user-delete": 1, "restart": 1,
+	"fault": 0, "adv-interpose": 0,
 }
 
 type ident struct {
@@ -141,12 +146,12 @@ func (g *Rand) newRevision() {
 		if !g.P.Cluster && r.Intn(2) == 0 {
 			ns = "" // defaulted to the set's namespace
 		}
-		phases[i].Objects = append(phases[i].Objects, ObjectSetObject(Object(id.GVK, ns, id.Name, name), pickS(r, g.P.CPs)))
+		phases[i].Objects = append(phases[i].Objects, ObjectSetObject(g.manifest(id, ns, name), pickS(r, g.P.CPs)))
 	}
 	if len(hosted) > 0 {
 		ph := corev1alpha1.ObjectSetTemplatePhase{Name: "hosted-phase", Class: driver.RemoteClass}
 		for _, id := range hosted {
-			ph.Objects = append(ph.Objects, ObjectSetObject(Object(id.GVK, g.NS, id.Name, name), pickS(r, g.P.CPs)))
+			ph.Objects = append(ph.Objects, ObjectSetObject(g.manifest(id, g.NS, name), pickS(r, g.P.CPs)))
 		}
 		pos := r.Intn(len(phases) + 1)
 		phases = append(phases[:pos], append([]corev1alpha1.ObjectSetTemplatePhase{ph}, phases[pos:]...)...)
@@ -176,6 +181,19 @@ func (g *Rand) newRevision() {
 		panic(err)
 	}
 	g.Sets = append(g.Sets, name)
+}
+
+// manifest builds the object as listed in a revision. Some manifests look like exports of live
+// objects: they carry a revision annotation or a status stanza of their own.
+func (g *Rand) manifest(id ident, ns, content string) *unstructured.Unstructured {
+	u := Object(id.GVK, ns, id.Name, content)
+	if g.R.Intn(8) == 0 {
+		u.SetAnnotations(map[string]string{pkomodel.RevisionAnnotation: fmt.Sprint(1 + g.R.Intn(2)), "example.com/exported": "true"})
+	}
+	if id.GVK.Kind != "ConfigMap" && g.R.Intn(6) == 0 {
+		u.Object["status"] = map[string]any{"conditions": []any{map[string]any{"type": "Available", "status": "True", "reason": "Exported", "message": ""}}}
+	}
+	return u
 }
 
 // slice moves the objects of every local phase into an ObjectSlice.
@@ -259,7 +277,9 @@ func (g *Rand) shape(u *unstructured.Unstructured, hosted bool) string {
 		sets := g.existingSets()
 		if len(sets) > 0 {
 			s := pickS(r, sets)
-			if ref := g.setRef(s, r.Intn(4) != 0); ref != nil {
+			// a third party cannot know a set's UID before the set acted; references that make a PKO
+			// revision *controller* without PKO's doing are only forged where the profile asks for it (C01)
+			if ref := g.setRef(s, g.P.ForgeControl && r.Intn(4) != 0); ref != nil {
 				refs = append(refs, *ref)
 				desc = fmt.Sprintf("owner %s controller=%v", s, ref.Controller != nil)
 			}
@@ -425,6 +445,88 @@ func (g *Rand) Step() {
 				nf = append(nf, "example.com/hold")
 			}
 			u.SetFinalizers(nf)
+		})
+	case "fault":
+		kind := r.Intn(4)
+		verbs := pickS(r, [][]string{{"delete"}, {"patch"}, {"update"}, {"patch", "update", "delete", "create"}})
+		skip := r.Intn(4)
+		a := &Armed{Match: func(req *simkube.Request) bool {
+			if !req.IsWrite() || req.DryRun {
+				return false
+			}
+			for _, v := range verbs {
+				if v == req.Verb {
+					if skip > 0 {
+						skip--
+						return false
+					}
+					return true
+				}
+			}
+			return false
+		}}
+		switch kind {
+		case 0:
+			a.Fault, a.Err, a.Desc = simkube.FaultErrorBefore, apierrors.NewConflict(schema.GroupResource{Resource: "objects"}, "injected", fmt.Errorf("injected conflict")), "injected 409 Conflict"
+		case 1:
+			a.Fault, a.Err, a.Desc = simkube.FaultErrorBefore, apierrors.NewInternalError(fmt.Errorf("injected")), "injected 500"
+		case 2:
+			a.Fault, a.Desc = simkube.FaultLostResponse, "effect committed, response lost"
+		default:
+			a.Fault, a.Desc = simkube.FaultCrash, "operator crash"
+		}
+		a.Desc += fmt.Sprintf(" at upcoming %v write (skip %d)", verbs, skip)
+		e.Arm(a)
+	case "adv-interpose":
+		// a third party acts between PKO's read and its next write on the same managed object
+		action := pickS(r, []string{"re-own", "edit", "recreate", "delete", "add-owner"})
+		verb := pickS(r, []string{"delete", "delete", "patch"})
+		e.Arm(&Armed{
+			Desc: fmt.Sprintf("third party will %s the object right before PKO's next %s on a managed object", action, verb),
+			Match: func(req *simkube.Request) bool {
+				return req.Verb == verb && !req.DryRun && !strings.HasPrefix(req.GVK.Group, "package-operator.run") && req.GVK.Kind != "Namespace"
+			},
+			Before: func(req *simkube.Request) {
+				hosted := req.InStore() == e.W.Target && e.W.Target != e.W.Store
+				id := ident{GVK: req.GVK, Name: req.Key.Name, Hosted: hosted}
+				switch action {
+				case "re-own":
+					e.Mutate("adversary", hosted, id.GVK, req.Key.Namespace, id.Name, "re-own (interposed)", func(u *unstructured.Unstructured) {
+						t := true
+						if hosted {
+							ann := u.GetAnnotations()
+							if ann == nil {
+								ann = map[string]string{}
+							}
+							ann[pkomodel.OwnersAnnotation] = `[{"apiVersion":"apps/v1","kind":"Deployment","name":"boss","namespace":"ns","uid":"foreign-ctrl","controller":true}]`
+							u.SetAnnotations(ann)
+						} else {
+							u.SetOwnerReferences([]metav1.OwnerReference{{APIVersion: "apps/v1", Kind: "Deployment", Name: "boss", UID: "foreign-ctrl", Controller: &t}})
+						}
+					})
+				case "add-owner":
+					e.Mutate("adversary", hosted, id.GVK, req.Key.Namespace, id.Name, "add plain owner (interposed)", func(u *unstructured.Unstructured) {
+						u.SetOwnerReferences(append(u.GetOwnerReferences(), metav1.OwnerReference{APIVersion: "v1", Kind: "ConfigMap", Name: "late", UID: "foreign-late"}))
+					})
+				case "edit":
+					e.Mutate("adversary", hosted, id.GVK, req.Key.Namespace, id.Name, "edit (interposed)", func(u *unstructured.Unstructured) {
+						l := u.GetLabels()
+						if l == nil {
+							l = map[string]string{}
+						}
+						l["example.com/touched"] = fmt.Sprint(r.Intn(1000))
+						u.SetLabels(l)
+					})
+				case "delete":
+					e.Delete("adversary", hosted, id.GVK, req.Key.Namespace, id.Name)
+				case "recreate":
+					if e.Delete("adversary", hosted, id.GVK, req.Key.Namespace, id.Name) && !g.exists(id) {
+						u := Object(id.GVK, req.Key.Namespace, id.Name, "re-created")
+						u.SetLabels(map[string]string{pkomodel.CacheLabel: "True"})
+						_ = e.Create("adversary", hosted, u)
+					}
+				}
+			},
 		})
 	case "user-next-revision":
 		if g.revCount < g.P.MaxRevisions {
